@@ -748,9 +748,9 @@ def _parse_phase_numpydoc_and_google(
                 return None
             cur = {"name": name.strip()}
             if typ:
-                cur.update(
-                    {"typ": typ.lstrip(), "doc": "\n".join(map(white_spacer, scan[1:]))}
-                )
+                cur["typ"] = typ.lstrip()
+            if typ or len(scan) > 1:
+                cur["doc"] = "\n".join(map(white_spacer, scan[1:]))
             return cur
 
     else:
